@@ -295,6 +295,13 @@ def retain_legs(v, acc, thorough=False, timeout=1800):
     mc = "V2RetainMC.cfg"
     r = tlc_require_ok(tlc("V2RetainMC", mc, timeout=timeout), "V2Retain model check")
     acc.add_tlc(r, mc)
+    # copies that share physical lines: all kept when no copy's lines lie inside another's; that EVERY copy is kept must fail
+    # (open finding C01-copy-inside-lines-of-heavier-copy: the loop works on lines, not tokens)
+    r = tlc_require_ok(tlc("V2RetainMC", "V2RetainCopies.cfg", timeout=timeout), "V2Retain copies sharing lines"); acc.add_tlc(r, "V2RetainCopies.cfg")
+    nv = tlc("V2RetainMC", "V2RetainShared.cfg", timeout=600)
+    if nv.violated != "CopiesKept":
+        raise vlib.Inconclusive("V2RetainShared.cfg did not violate CopiesKept: " + nv.tail[-1500:])
+    acc.tlc.append({"cfg": "V2RetainShared.cfg", "expected_violation": nv.violated})
     cfg = "V2RetainGen.cfg"
     text = cfg_text(cfg)
     if thorough:
@@ -317,6 +324,36 @@ def retain_legs(v, acc, thorough=False, timeout=1800):
     for r in recs:
         if r.get("kind") == "mismatch":
             v.fail("retain-replay", {"why": r["why"], "spec": r["spec"]})
+
+
+def fill_legs(v, acc, thorough=False, timeout=900):
+    """Legs M and G on the refill loop of the tokenizer's read buffer (V2Fill): the rules on every small reader script, ReadFull's
+    reading of ErrUnexpectedEOF must fail, then every script through the real fill()."""
+    sub_ = {"MaxReads = 3": "MaxReads = 4"} if thorough else {}
+    def text(cfg):
+        t = cfg_text(cfg)
+        for a, b in sub_.items():
+            t = t.replace(a, b)
+        return t
+    r = tlc_require_ok(tlc("V2Fill", "V2Fill.cfg", timeout=timeout, files={"V2Fill.cfg": text("V2Fill.cfg")}), "V2Fill model check"); acc.add_tlc(r, "V2Fill.cfg")
+    nv = tlc("V2Fill", "V2FillNV.cfg", timeout=600)
+    if nv.violated != "ReadFullTreatsUEOFAsEnd":
+        raise vlib.Inconclusive("V2FillNV.cfg did not violate ReadFullTreatsUEOFAsEnd: " + nv.tail[-1500:])
+    acc.tlc.append({"cfg": "V2FillNV.cfg", "expected_violation": nv.violated})
+    gen = tlc_require_ok(tlc("V2Fill", "V2FillGen.cfg", timeout=timeout, files={"V2FillGen.cfg": text("V2FillGen.cfg")}), "V2Fill vector generation"); acc.add_tlc(gen, "V2FillGen.cfg")
+    out = os.path.join(sub("out"), "fill.ndjson")
+    if os.path.exists(out):
+        os.remove(out)
+    rc, txt, _ = go_overlay_test("v2", ["common/util_test.go", "v2/fill_driver_test.go"], "^TestVerifFillReplay$", timeout=timeout,
+                                 env={"VERIF_IN": gen.outpath, "VERIF_OUT": out})
+    recs = read_ndjson(out)
+    summ = [r for r in recs if r.get("kind") == "summary"]
+    if vlib.build_failed(txt) or not summ or summ[0]["vectors"] == 0:
+        raise vlib.Inconclusive("refill replay driver failed:\n" + txt[-2500:])
+    acc.evaluations += summ[0]["vectors"]; acc.extra["fill_replay"] = summ[0]
+    for r in recs:
+        if r.get("kind") == "mismatch":
+            v.fail("fill-replay", {"why": r["why"]})
 
 
 def tracecfg_legs(v, acc, timeout=600):
